@@ -732,6 +732,10 @@ class Integer(Atomic, CommonMath):
             raise TypeError("invalid constructor datatype")
 
     def encode(self, tag):
+        # only values that fit in four octets can be encoded
+        if (self.value < -0x80000000) or (self.value > 0x7FFFFFFF):
+            raise ValueError("value out of range")
+
         # rip apart the number
         data = bytearray(struct.pack('>I', self.value & 0xFFFFFFFF))
 
